@@ -93,15 +93,13 @@ theorem contractibleB_nil (a b : Arr R) : ValidP.contractibleB a b [] [] = true 
   unfold ValidP.contractibleB; simp
 
 /-- **fused = blockwise with no contracted axes** (abelian operands, both with blocks) -/
-theorem abOk_outer [AddCommMonoid R] [Mul R] [Neg R]
+theorem abOk_outer_ctx [AddCommMonoid R] [Mul R] [Neg R]
     (hz1 : ∀ x : R, 0 * x = 0) (hz2 : ∀ x : R, x * 0 = 0) (a b : Arr R)
-    (ha : a.validB = true) (hb : b.validB = true) (hfa : a.fermi = false) (hfb : b.fermi = false)
-    (hsym : a.sym = b.sym)
+    (ha : a.validB = true) (hfa : a.fermi = false)
+    (h : Ctx0 (dropMisaligned a b [] []).1 (dropMisaligned a b [] []).2 [] [])
     (hbl : ((dropMisaligned a b [] []).1.blocks.isEmpty || (dropMisaligned a b [] []).2.blocks.isEmpty) = false) :
     AbOk a b [] [] := by
   obtain ⟨n1, n2⟩ := dropMisaligned_ndim a b [] []
-  have h := ctx0_of_dropMisaligned a b [] [] ha hb hfa hfb hsym (contractibleB_nil a b)
-    List.nodup_nil List.nodup_nil (by simp) (by simp)
   by_cases hL : freeAxes a.ndim [] = []
   · have hL' : freeAxes (dropMisaligned a b [] []).1.ndim [] = [] := by rw [n1]; exact hL
     by_cases hR : freeAxes b.ndim [] = []
@@ -125,10 +123,7 @@ theorem abOk_outer [AddCommMonoid R] [Mul R] [Neg R]
         rw [hL, hR]
         exact (Arr.elem_of_mem (Arr.allDistinct_of_validB hcv) (t4.trans h.phA) (alookup_mem hl) J).symm
       · intro s hs; rw [hL, hR] at hs; exact hs
-      · intro K V hl
-        have hs := Arr.shapesOk_of_validB hcv (K, V) (alookup_mem hl)
-        rw [hidx0] at hs
-        rw [hL, hR]; exact hs
+      · rw [hidx0, hL, hR]; exact .nil
     · have hR' : freeAxes (dropMisaligned a b [] []).2.ndim [] ≠ [] := by rw [n2]; exact hR
       obtain ⟨c, hc_ok, hcv, f1, f2, f3, f4, f5, hrank, hval, hsec, hshape⟩ :=
         h.outer_sv hz1 hz2 hL' hR'
@@ -165,6 +160,33 @@ theorem abOk_outer [AddCommMonoid R] [Mul R] [Neg R]
       have hflow := tensordotViaFused_outer a b (freeAxes a.ndim []) (freeAxes b.ndim []) hL hR hbl _ _ hfA hfB
       exact abOk_of_aligned a b [] [] ha hfa c (hflow.trans hc_ok) hcv f1 f2 f3 f4 f5
         hrank hval hsec hshape
+
+/-- **fused = blockwise with no contracted axes** (abelian operands, both with blocks) -/
+theorem abOk_outer [AddCommMonoid R] [Mul R] [Neg R]
+    (hz1 : ∀ x : R, 0 * x = 0) (hz2 : ∀ x : R, x * 0 = 0) (a b : Arr R)
+    (ha : a.validB = true) (hb : b.validB = true) (hfa : a.fermi = false) (hfb : b.fermi = false)
+    (hsym : a.sym = b.sym)
+    (hbl : ((dropMisaligned a b [] []).1.blocks.isEmpty || (dropMisaligned a b [] []).2.blocks.isEmpty) = false) :
+    AbOk a b [] [] :=
+  abOk_outer_ctx hz1 hz2 a b ha hfa
+    (ctx0_of_dropMisaligned a b [] [] ha hb hfa hfb hsym (contractibleB_nil a b)
+      List.nodup_nil List.nodup_nil (by simp) (by simp)) hbl
+
+/-- **fused = blockwise for EVERY call**, from the aligned-operand context -/
+theorem abOk_all_ctx [AddCommMonoid R] [Mul R] [Neg R]
+    (hz1 : ∀ x : R, 0 * x = 0) (hz2 : ∀ x : R, x * 0 = 0) (a b : Arr R) (xa xb : List Nat)
+    (ha : a.validB = true) (hfa : a.fermi = false)
+    (h : Ctx0 (dropMisaligned a b xa xb).1 (dropMisaligned a b xa xb).2 xa xb)
+    (hbl : ((dropMisaligned a b xa xb).1.blocks.isEmpty || (dropMisaligned a b xa xb).2.blocks.isEmpty) = false) :
+    AbOk a b xa xb := by
+  by_cases hK : xa = []
+  · have hKb : xb = [] := by
+      have := h.len
+      rw [hK] at this
+      exact List.eq_nil_of_length_eq_zero this.symm
+    subst hK hKb
+    exact abOk_outer_ctx hz1 hz2 a b ha hfa h hbl
+  · exact abOk_contract_ctx hz1 hz2 a b xa xb ha hfa h hK hbl
 
 /-- **fused = blockwise for EVERY call** (abelian operands, aligned blocks) -/
 theorem abOk_all [AddCommMonoid R] [Mul R] [Neg R]
